@@ -164,10 +164,26 @@ func (t *Type) coq() string {
 }
 
 func paren(s string) string {
-	if strings.ContainsAny(s, " ") && !strings.HasPrefix(s, "(") {
-		return "(" + s + ")"
+	if !strings.ContainsAny(s, " \n") {
+		return s
 	}
-	return s
+	if strings.HasPrefix(s, "(") { // already enclosed by one matching pair?
+		d := 0
+		for i, c := range s {
+			if c == '(' {
+				d++
+			} else if c == ')' {
+				d--
+				if d == 0 {
+					if i == len(s)-1 {
+						return s
+					}
+					break
+				}
+			}
+		}
+	}
+	return "(" + s + ")"
 }
 
 func (t *Type) min() *big.Int {
